@@ -822,6 +822,9 @@ func TestC18(t *testing.T) {
 	// ---- (e) the generated wire code against the byte-level model ----
 	c18WirePhase(t, dir, rep, newRng(seed(), "C18-wire"))
 
+	// ---- (f) resource.Metadata <-> bytes against MetaWire.v ----
+	c18MetaPhase(t, dir, rep, newRng(seed(), "C18-meta"))
+
 	rep.Assumptions = append(rep.Assumptions, "strings are valid UTF-8 (proto3 string fields); zstd, AES-GCM and the YAML library are exercised, not modelled")
 	rep.write(t, dir)
 }
